@@ -310,10 +310,21 @@ def model_stimulus(ts, frames, model):
     return stim
 
 
+def fresh(make):
+    """A new instance for the simulator, built the way the checks build theirs: after a warm-up instance of
+    the same configuration has been elaborated once (so that replay sees the same process history)."""
+    from amaranth.hdl import Fragment
+    try:
+        Fragment.get(make().top, None)
+    except Exception:
+        pass
+    return make()
+
+
 def replay_on_sim(make, build, k, stimulus, prefix):
     """Re-create the design, simulate ``stimulus`` from reset, evaluate the window predicate
     on the observed values.  Returns (reproduced: bool, details)."""
-    h2 = make()
+    h2 = fresh(make)
     rec = {}
     dry = [_TraceFrame(rec) for _ in range(k)]
     build(h2, dry)
